@@ -1503,6 +1503,27 @@ func (x *Exec) frameObligations(con *Contract, fn *ssa.Function, args []Value, e
 // ---------------------------------------------------------------------------
 // ghost monitors
 
+// stripTypeArgs removes the trailing type-argument list of an instantiated generic function or method name
+// (sync.(*ShardedMap[K,V]).Get[uuid.UUID,chan struct{}] -> sync.(*ShardedMap[K,V]).Get).
+func stripTypeArgs(key string) string {
+	if !strings.HasSuffix(key, "]") {
+		return key
+	}
+	depth := 0
+	for i := len(key) - 1; i >= 0; i-- {
+		switch key[i] {
+		case ']':
+			depth++
+		case '[':
+			depth--
+			if depth == 0 {
+				return key[:i]
+			}
+		}
+	}
+	return key
+}
+
 func (x *Exec) monitors(fr *Frame, st *State, key, rel, when string, args []Value, res Value, sig *types.Signature, site string) {
 	con := fr.top.con
 	if con == nil || len(con.Monitors) == 0 {
@@ -1512,7 +1533,7 @@ func (x *Exec) monitors(fr *Frame, st *State, key, rel, when string, args []Valu
 		if m.When != when {
 			continue
 		}
-		if !(m.Callee == key || m.Callee == rel || strings.HasSuffix(key, "."+m.Callee)) {
+		if !(m.Callee == key || m.Callee == rel || strings.HasSuffix(key, "."+m.Callee) || strings.HasSuffix(stripTypeArgs(key), "."+m.Callee)) {
 			continue
 		}
 		env := &SpecEnv{x: x, vars: map[string]SVal{}, st: st, old: fr.top.entry, pkg: fnTypesPkg(fr.top.fn), lets: map[string]*Expr{}, free: x.freeOf[con], fr: fr.top}
@@ -1578,6 +1599,12 @@ func (x *Exec) runGhost(st *State, env *SpecEnv, stmts []*GhostStmt, what, site 
 		case "assume":
 			x.assumed[fmt.Sprintf("assume in the contract of %s (%s, line %d): %s", x.curKey, what, s.Line, s.Expr.String())] = true
 			x.assumePC(st, env.boolean(s.Expr))
+		case "havoc":
+			var regs []modRegion
+			for _, it := range s.Then {
+				regs = append(regs, x.modRegion(it.Expr, env)...)
+			}
+			x.havocRegions(st, st.clone(), regs)
 		case "assign":
 			v := env.eval(s.Expr)
 			if _, ok := ghostSorts[s.Name]; !ok {
